@@ -6,6 +6,7 @@ CONSTANTS
   Mode = "context"
   GeomRefs = {"allC", "allG", "CG"}
   MaxFrags = 1
+  DistMode = "zero"
   Variant = "target_ignores_convention"
 INVARIANT Inv_C14_OnTarget
 INVARIANT Inv_C14_DoveSafe
